@@ -125,7 +125,8 @@ func concOff(o string, length int, variant int) int64 {
 	case "end":
 		return int64(length)
 	case "end+1":
-		return int64(length) + 1
+		// beyond the end: just beyond, and as far beyond as a positive int64 goes (offset + count wraps there)
+		return []int64{int64(length) + 1, int64(length) + 1, 1 << 62, 1<<63 - 1, 1<<63 - 8, 1<<63 - 2}[variant%6]
 	case "neg":
 		return []int64{-1 << 63, -2, -1 << 40}[variant%3]
 	}
